@@ -21,6 +21,8 @@ type C15Case struct {
 	// Claim (http targets): when non-zero the hostile server announces this Content-Length, sends the data and
 	// closes the connection (a response header is untrusted input too)
 	Claim int64 `json:"claim,omitempty"`
+	// Status (http targets): HTTP status of the hostile reply when non-zero (with the data, possibly empty, as body)
+	Status int `json:"status,omitempty"`
 }
 
 var c15Child *hostileChild
@@ -46,7 +48,7 @@ func hostileCall(req hostileReq) hostileResp {
 const allocSlack = 1 << 20
 
 func runC15(c C15Case, ev *Evid) (fs []Finding) {
-	resp := hostileCall(hostileReq{Target: c.Target, Data: c.Data, Now: c.Now, Claim: c.Claim})
+	resp := hostileCall(hostileReq{Target: c.Target, Data: c.Data, Now: c.Now, Claim: c.Claim, Status: c.Status})
 	desc := fmt.Sprintf("target=%s origin=%s %d bytes %s", c.Target, c.Origin, len(c.Data), hexHead(c.Data, 48))
 	switch {
 	case resp.Timeout:
@@ -77,7 +79,7 @@ func runC15(c C15Case, ev *Evid) (fs []Finding) {
 	} else {
 		cls = append(cls, "rejected")
 	}
-	ev.Count(Hash64(c.Target, string(c.Data), c.Now+c.Claim), nontrivial, cls...)
+	ev.Count(Hash64(c.Target, string(c.Data), c.Now+c.Claim+int64(c.Status)<<40), nontrivial, cls...)
 	if nontrivial && ev.WantSample() && len(c.Data) < 200 {
 		ev.Sample(c)
 	}
@@ -311,6 +313,22 @@ func genC15(t *rapid.T) C15Case {
 		c.Now = rapid.Int64Range(1<<31, 1<<32-1<<26).Draw(t, "nowHigh")
 	}
 	valid := genValidBytesAt(t, c.Target, c.Now)
+	if strings.HasPrefix(c.Target, "http-") && rapid.IntRange(0, 5).Draw(t, "oddStatus") == 0 {
+		// what a proxy, a restarting or a hostile peer sends: any status, with an empty, short or complete body
+		c.Status = rapid.SampledFrom([]int{201, 204, 206, 301, 304, 400, 401, 404, 408, 500, 502, 503, 504, 599}).Draw(t, "status")
+		switch rapid.IntRange(0, 3).Draw(t, "statusBody") {
+		case 0:
+			c.Data = nil
+		case 1:
+			c.Data = []byte("\n")
+		case 2:
+			c.Data = valid
+		default:
+			c.Data = []byte("upstream timed out\n")
+		}
+		c.Origin = "odd-http-status"
+		return c
+	}
 	if strings.HasPrefix(c.Target, "http-") && rapid.IntRange(0, 4).Draw(t, "lyingLength") == 0 {
 		c.Claim = rapid.SampledFrom([]int64{int64(len(valid)) + 1, int64(len(valid)) + 4096, 1 << 26, 1 << 31, 1 << 40, 1 << 50, 1<<63 - 1}).Draw(t, "claim")
 		c.Data, c.Origin = valid, "valid+lying-content-length"
@@ -494,7 +512,7 @@ func FuzzC15(f *testing.F) {
 			return
 		}
 		c := C15Case{Target: fuzzTargets[int(in[0])%len(fuzzTargets)], Data: in[1:], Now: 1500000000, Origin: "native-fuzz"}
-		resp := execHostile(hostileReq{Target: c.Target, Data: c.Data, Now: c.Now, Claim: c.Claim}, dir)
+		resp := execHostile(hostileReq{Target: c.Target, Data: c.Data, Now: c.Now, Claim: c.Claim, Status: c.Status}, dir)
 		var fs []Finding
 		if resp.Panic != "" {
 			fs = append(fs, Finding{Property: "C15", Key: "panic", Detail: fmt.Sprintf("target=%s %d bytes %s: panic in %s: %s", c.Target, len(c.Data), hexHead(c.Data, 48), resp.Where, resp.Panic)})
